@@ -11,6 +11,7 @@
 (*             created simulation the recomputed slots with their twins,    *)
 (*             the first hour of each simulated series, the date            *)
 (*   SimSet / SimReset  the state after the toggle                          *)
+(*   PlainUpdate  an undated ModelingUpdate, accepted or refused           *)
 (*   SimProbe  a simulation of one input at an interior date (systematic   *)
 (*             sweep over the inputs of a system): recomputed slots only    *)
 (*   RealUpdate  value classes after really applying the same changes to a  *)
@@ -32,6 +33,7 @@ Line(kind, e, clause, data) ==
 Fail(e, clause, data) == Line("FAIL", e, clause, data)
 C05 == Focus \in {"C05", "both"}
 C06 == Focus \in {"C06", "both"}
+C15 == Focus \in {"C15", "both"}
 
 ChildSets(e, tokens) == [t \in tokens |-> IF ToString(t) \in DOMAIN e.chld THEN SeqSetS(e.chld[ToString(t)]) ELSE {}]
 AncSets(e, tokens) == [t \in tokens |-> IF ToString(t) \in DOMAIN e.anc THEN SeqSetS(e.anc[ToString(t)]) ELSE {}]
@@ -79,6 +81,21 @@ CheckProbe(e) ==       \* a simulation of one input of a system, judged on the r
                  {<<e.recomputed[n].slot, e.recomputed[n].min_hour>> : n \in {m \in DOMAIN e.recomputed :
                       e.recomputed[m].min_hour >= 0 /\ e.recomputed[m].min_hour < e.date_hour}}) ELSE TRUE
 
+(* an undated update (EFSim.Update): refused -> nothing changed (same value objects, same graph); accepted -> among the values *)
+(* of the objects reachable from the system, every recorded ancestor is a value currently held by the model and the      *)
+(* dependency is listed on both ends                                                                                     *)
+AncOf(e, t) == IF ToString(t) \in DOMAIN e.anc THEN SeqSetS(e.anc[ToString(t)]) ELSE {}
+ChildOf(e, t) == IF ToString(t) \in DOMAIN e.chld THEN SeqSetS(e.chld[ToString(t)]) ELSE {}
+CheckPlain(e) ==
+    IF ~C15 THEN TRUE
+    ELSE IF e.outcome = "raised" THEN SameAsBaseline(e, "after-update-raised")
+    ELSE LET held == {e.tok[s] : s \in DOMAIN e.tok}
+             live == SeqSetS(e.live_toks)           \* values held by the objects reachable from the system
+             dangling == {t \in live : ~(AncOf(e, t) \subseteq held)}
+             oneEnd == {t \in live : (ChildOf(e, t) \cap live) # {c \in live : t \in AncOf(e, c)}}
+         IN  /\ IF dangling # {} THEN Fail(e, "installed-value-keeps-a-superseded-ancestor:after-update", dangling) ELSE TRUE
+             /\ IF oneEnd # {} THEN Fail(e, "dependency-listed-on-one-end-only:after-update", oneEnd) ELSE TRUE
+
 CheckSet(e) ==
     /\ IF C05 /\ \E n \in DOMAIN sim.recomputed :
                     sim.recomputed[n].slot \in DOMAIN e.tok /\ e.tok[sim.recomputed[n].slot] # sim.recomputed[n].sim_tok
@@ -98,6 +115,7 @@ Step ==
          [] e.ev = "SimCreate" -> CheckCreate(e) /\ sim' = e /\ UNCHANGED <<base, simval>> /\ isSet' = FALSE
          [] e.ev = "SimSet" -> CheckSet(e) /\ simval' = e.val /\ isSet' = TRUE /\ UNCHANGED <<base, sim>>
          [] e.ev = "SimReset" -> (IF C05 THEN SameAsBaseline(e, "after-reset") ELSE TRUE) /\ isSet' = FALSE /\ UNCHANGED <<base, sim, simval>>
+         [] e.ev = "PlainUpdate" -> CheckPlain(e) /\ (IF e.outcome = "updated" THEN base' = e ELSE UNCHANGED base) /\ UNCHANGED <<sim, simval, isSet>>
          [] e.ev = "SimProbe" -> CheckProbe(e) /\ UNCHANGED <<base, sim, simval, isSet>>
          [] e.ev = "RealUpdate" -> CheckReal(e) /\ UNCHANGED <<base, sim, simval, isSet>>
 
